@@ -389,7 +389,7 @@ def run_oracle(ctx, exe, cases):
     hist = collections.Counter()
     for c, out in zip(cases, lines):
         ctx.evaluations += 1
-        m = re.match(r'(OK|BAD) points=(\d+) documented=(\d+)', out)
+        m = re.match(r'(OK|BAD) points=(\d+) documented=(\d+) pending=(\d+) ev=(\S+)', out)
         if not m:
             bad.append((c, out, 'unparsable oracle output')); continue
         if int(m.group(2)) > 0:
@@ -397,6 +397,15 @@ def run_oracle(ctx, exe, cases):
         hist[c.split()[0]] += int(m.group(2))
         if int(m.group(3)) > 0:
             documented_limitation(ctx, c, int(m.group(3)), os.path.basename(exe))
+        dist = ctx.coverage.setdefault('input_distribution', {})
+        sc, cat = c.split()[0], c.split()[1]
+        d = dist.setdefault('oracle_cases_per_scenario', {}); d[sc] = d.get(sc, 0) + 1
+        d = dist.setdefault('oracle_cases_per_category', {}); d[cat] = d.get(cat, 0) + 1
+        d = dist.setdefault('oracle_failure_points_per_category', {}); d[cat] = d.get(cat, 0) + int(m.group(2))
+        if m.group(5) != '-':
+            d = dist.setdefault('oracle_measured_events', {})
+            for kv in m.group(5).split(','):
+                kk, vv = kv.rsplit(':', 1); d[kk] = d.get(kk, 0) + int(vv)
         if m.group(1) == 'BAD':
             bad.append((c, out, out[:300]))
     if len(lines) < len(cases) and rc == 0:
@@ -405,6 +414,33 @@ def run_oracle(ctx, exe, cases):
     for kk, vv in hist.items():
         tot[kk] = tot.get(kk, 0) + vv
     return bad
+
+
+def check_types(ctx, exes):
+    """the classes the oracle configurations really instantiate must be the intended ones"""
+    seen = {}; bad = []
+    for name in ORACLES:
+        for c in ORACLE_CATS:
+            exe = exes.get('%s_%s' % (name, c))
+            if exe is None:
+                continue
+            rc, lines, _ = ctx.run_lines([exe, '--types'], os.devnull)
+            for l in lines:
+                seen.setdefault(c, []).append(l)
+            txt = '\n'.join(lines)
+            if name == 'oracle':
+                catline = [l for l in lines if l.startswith('cat ')]
+                if not catline or EXPECTED_CAT[c] not in catline[0]:
+                    bad.append('%s: element category traits are not the intended ones: %s' % (c, catline))
+            for key, sub in EXPECTED_TYPES.items():
+                ls = [l for l in lines if l.startswith(key)]
+                if ls and sub not in ls[0]:
+                    bad.append('%s %s: expected %r in %r' % (c, key, sub, ls[0][:200]))
+    missing = [k for k in EXPECTED_TYPES if not any(l.startswith(k) for ls in seen.values() for l in ls)]
+    if missing:
+        bad.append('no --types line for ' + ', '.join(missing))
+    ctx.coverage['instantiated_types'] = {c: ls for c, ls in seen.items() if c == 'NTM'}
+    ctx.stage('config-types', not bad, '; '.join(bad[:5]))
 
 
 DOC_KEY = 'map-copyonly-pair-remove-value-changed'
@@ -424,6 +460,24 @@ def documented_limitation(ctx, case, n, exen):
 
 # ----------------------------------------------------------------------------------------------- entry points
 ORACLES = ('oracle', 'oracle_std')
+ORACLE_CATS = ['TRIV'] + CATS          # the oracle additionally runs trivially relocatable items (memcpy relocation)
+if os.environ.get('VERIF_C10_CATS'):   # mutant re-runs on a loaded machine: restrict the oracle builds to some categories (default: all five)
+    ORACLE_CATS = [c for c in ORACLE_CATS if c in os.environ['VERIF_C10_CATS'].split(',')]
+
+# what the configurations must REALLY instantiate (substring of the demangled type printed by `<oracle> --types`)
+EXPECTED_TYPES = {
+    'bucket hs_open8': 'BucketOpen2N2<',        # HashBucketOpen8 with a custom (slow) hash functor falls back to Open2N2<3>
+    'bucket hs_default': 'BucketLimP4<', 'bucket limp': 'BucketLimP<', 'bucket unlimp': 'BucketUnlimP<', 'bucket open2n2': 'BucketOpen2N2<',
+    'bucket openn1': 'BucketOpenN1<', 'bucket limp1': 'BucketLimP1<', 'bucket lim4': 'BucketLim4<', 'bucket one': 'BucketOne<',
+    'bucket fasthash ': 'unsigned long, kit::MM> >, 4ul, momo::MemPoolParams<32ul, 16ul>, false>',     # fast-hash variant of LimP4
+    'bucket fasthash_open8': 'BucketOpen8<', 'node ts_small ': ', 4ul, 2ul, momo::MemPoolParams<2ul, 16ul>, ',
+    'node ts_smallidx': ', 5ul, 1ul, momo::MemPoolParams<1ul, 16ul>, false>', 'crew hs_inline': 'is_inline=1', 'crew tsd_inline': 'is_inline=1',
+    'crew hs_noversion': 'kit::MM, false, true>', 'crew hs_kitmm': 'kit::MM, true, true>', 'traits tsd_empty=1': 'ts_functor_empty=0',
+    'array_int': 'internalCapacity=4', 'std_uset bucket': 'BucketLimP4<', 'std_map default nested': 'extraCheck=1',
+}
+EXPECTED_CAT = {'TRIV': 'trivially_relocatable=1 nothrow_relocatable=1', 'NTM': 'trivially_relocatable=0 nothrow_relocatable=1 nothrow_anyway_assignable=1',
+                'SMH': 'trivially_relocatable=0 nothrow_relocatable=1', 'THM': 'trivially_relocatable=0 nothrow_relocatable=1 nothrow_anyway_assignable=1',
+                'CPY': 'trivially_relocatable=0 nothrow_relocatable=0 nothrow_anyway_assignable=0'}
 
 
 def oseed(ctx, scenario, rep):
@@ -439,7 +493,7 @@ def build_all(ctx):
     jobs = [('harness.cpp', 'harness', fast)]
     for name in ORACLES:
         if os.path.exists(os.path.join(ctx.pdir, name + '.cpp')):
-            for c in CATS:
+            for c in ORACLE_CATS:
                 jobs.append((name + '.cpp', '%s_%s' % (name, c), fast + ['-DC10_CAT=kit::' + c]))
     return cached_cxx_many(ctx, jobs)
 
@@ -527,6 +581,7 @@ def run(ctx):
     ctx.stage('oracle:tie-outputs', not bad, bad[0][2] if bad else '')
     for (c, out, why) in bad[:3]:
         ctx.violation(why, {'case': c, 'impl_output': out[:1500], 'cmd': 'echo "%s" | build/C10/harness' % c}, found_input=True)
+    check_types(ctx, exes)
     # ---- fault enumeration over many container kinds (always; more seeds when a stage broke = the search stage)
     broken = any(not st['ok'] for st in ctx.stages.values())
     reps = (2 if ctx.quick() else 10) * (4 if broken else 1)
@@ -534,7 +589,7 @@ def run(ctx):
         if not os.path.exists(os.path.join(ctx.pdir, name + '.cpp')):
             continue
         obad = []; nocases = 0
-        for c in CATS:
+        for c in ORACLE_CATS:
             exe = exes.get('%s_%s' % (name, c))
             if exe is None:
                 ctx.stage('build-%s_%s' % (name, c), False, getattr(ctx, 'last_cxx_error', '')); continue
@@ -551,7 +606,14 @@ def run(ctx):
             ctx.violation(why, {'case': cs, 'impl_output': out[:1500], 'cmd': 'echo "%s" | build/C10/%s' % (cs, exen)}, found_input=True)
     for c in cases[::max(1, len(cases) // 5)][:5]:
         ctx.add_sample(c)
-    ctx.coverage['input_distribution'] = dict(collections.Counter(c.split()[0] + ':' + c.split()[1] for c in cases))
+    dist = ctx.coverage.setdefault('input_distribution', {})
+    dist['tie_cases_per_mode_and_category'] = dict(collections.Counter(c.split()[0] + ':' + c.split()[1] for c in cases))
+    dist['tie_failure_kind'] = dict(collections.Counter(c.split()[0] + ':' + (c.split()[3] if c.split()[0] in ('px',) else c.split()[2]) for c in cases
+                                                        if c.split()[0] in ('hm', 'tm', 'lm', 'fm', 'xi', 'px', 'ir', 'rp')))
+    dist['tie_observed_behaviours_per_mode'] = dict(collections.Counter())
+    for c, out in zip(cases, impl):
+        dist['tie_observed_behaviours_per_mode'][c.split()[0]] = dist['tie_observed_behaviours_per_mode'].get(c.split()[0], 0) + len(behaviours(out))
+    dist['tie_deep_tree_cases(>=35 items per side)'] = sum(1 for c in cases if c.split()[0] in ('tm', 'lm', 'fm') and max(len(c.split()[4].split(',')), len(c.split()[5].split(','))) >= 35)
     return ctx.finish(rule=RULE)
 
 
